@@ -122,6 +122,7 @@ type wpCase struct {
 	QueueConfirmed []int64   `json:"queue_confirmed"` // message numbers the durable work queue holds as confirmed at the end
 	QueueLeft      []int64   `json:"queue_left"`      // message numbers still stored (unconfirmed) in the queue at the end
 	Failed         bool      `json:"failed"`
+	Panic          string    `json:"panic,omitempty"` // the controller Receive panicked at the last recorded op
 	Error          string    `json:"error,omitempty"`
 }
 
@@ -142,20 +143,21 @@ type wpWorker struct {
 }
 
 type wpWorld struct {
-	ctx     context.Context
-	sys     *actorSystem
-	tag     string
-	ids     *rdIDs
-	prodRec *rdRecorder
-	prod    *PID
-	wp      *workPullingProducerController
-	sh      *rdShell
-	pid     *PID
-	workers map[int64]*wpWorker // by ctrl id, every generation ever created
-	current map[int64]*wpWorker // by worker number: latest generation
-	newProd []any
-	queue   *wpMemWorkQueue
-	results []any
+	ctx      context.Context
+	sys      *actorSystem
+	tag      string
+	ids      *rdIDs
+	prodRec  *rdRecorder
+	prod     *PID
+	wp       *workPullingProducerController
+	sh       *rdShell
+	pid      *PID
+	workers  map[int64]*wpWorker // by ctrl id, every generation ever created
+	current  map[int64]*wpWorker // by worker number: latest generation
+	newProd  []any
+	queue    *wpMemWorkQueue
+	results  []any
+	panicked string
 }
 
 func newWpWorld(ctx context.Context, sys *actorSystem, tag string, notify bool, durable bool) (*wpWorld, error) {
@@ -381,7 +383,17 @@ func (wk *wpWorker) receive(w *wpWorld, m any) {
 
 func (w *wpWorld) step(sender *PID, msg any, alive []int64) []int64 {
 	was := w.pid.IsRunning()
-	w.wp.Receive(&ReceiveContext{ctx: w.ctx, message: msg, sender: sender, self: w.pid})
+	func() {
+		defer func() {
+			if r := recover(); r != nil {
+				w.panicked = fmt.Sprint(r)
+			}
+		}()
+		w.wp.Receive(&ReceiveContext{ctx: w.ctx, message: msg, sender: sender, self: w.pid})
+	}()
+	if w.panicked != "" {
+		return []int64{-99}
+	}
 	return w.observe(alive, was && !w.pid.IsRunning())
 }
 
@@ -437,6 +449,15 @@ func (w *wpWorld) apply(o wpOp) ([]int64, error) {
 			g += 5
 		}
 		return w.step(w.pid, &producerControllerTick{generation: g}, o.Alive), nil
+	case "Restart":
+		// what the supervisor does on a restart directive: the same actor instance goes through PreStart again
+		// (state reset, durable state reloaded) and receives PostStart; workers stay attached and re-register
+		if err := w.wp.PreStart(newContext(w.ctx, w.pid.Name(), w.sys)); err != nil {
+			return nil, err
+		}
+		w.ids.sess = w.wp.sessionID
+		w.results = nil
+		return w.step(w.sys.NoSender(), new(PostStart), o.Alive), nil
 	case "Terminated":
 		wk := w.workers[o.Ctrl]
 		if wk == nil {
@@ -484,6 +505,10 @@ func (s *wpSched) do(o wpOp) bool {
 		return false
 	}
 	s.c.Ops = append(s.c.Ops, o)
+	if s.w.panicked != "" {
+		s.c.Panic = s.w.panicked
+		return false
+	}
 	s.c.Obs = append(s.c.Obs, obs)
 	s.prodInbox = append(s.prodInbox, s.w.newProd...)
 	s.w.newProd = nil
@@ -599,6 +624,29 @@ func (s *wpSched) next() (wpOp, bool) {
 	}
 	if len(s.w.results) > 0 && r.intn(100) < 35 {
 		return wpOp{Op: "QueueResult"}, true
+	}
+	if s.w.queue != nil && r.intn(100) < 2 {
+		// a supervised restart of the producer controller with its workers attached (durable flow: the accepted
+		// jobs are reloaded from the queue); every worker-side controller sees a new session and starts over
+		for _, wk := range s.w.workers {
+			wk.sess, wk.conf, wk.nonce = 0, 0, 0
+			wk.got = map[int64]bool{}
+		}
+		s.prodInbox = nil
+		s.event("restart")
+		return wpOp{Op: "Restart"}, true
+	}
+	if r.intn(100) < 3 {
+		// a worker-side controller loses its state (it restarted under the same PID and the producer side missed
+		// it): it registers afresh and adopts whatever next sequence the producer controller tells it
+		if wk := s.anyWorker(true); wk != nil {
+			wk.sess, wk.conf = 0, 0
+			wk.got = map[int64]bool{}
+			s.nextNonce++
+			wk.nonce = s.nextNonce
+			s.event("stateloss %d", wk.ctrl)
+			return wpOp{Op: "Register", Ctrl: wk.ctrl, Auth: true, N: wk.nonce}, true
+		}
 	}
 	x := r.intn(100)
 	switch {
